@@ -1,4 +1,5 @@
 import TF.Model.FieldOps
+import TF.Model.Poly
 /-!
 # Model of polynomial division, reduction, gcd and power-series inversion (property C09)
 
@@ -13,75 +14,33 @@ Conventions
 * a Rust panic (`expect`, `unwrap`, `assert!`, index out of bounds, inverse of zero, division by zero) is `none`;
 * the model is generic in the field through `TF.FieldOps α`; every dispatch threshold is a parameter;
 * `ntt`/`intt` are parameters (`NttOps`): the model follows the call sites; that `ntt` is the DFT is property C06;
-* `Polynomial::multiply` (dispatch naive/NTT) and the `*` operator are modelled by the ring product `mul` —
-  that every multiplication strategy returns this product is property C07.
+* `Polynomial::multiply` (dispatch naive/NTT) is modelled by `TF.Model.Poly.mul` (= `naive_multiply`, which is
+  also the `*` operator) — that every multiplication strategy returns this product is property C07;
+* storage, `normalize`, `degree`, `add`, `sub`, `mul`, … come from the shared core `TF/Model/Poly.lean`.
 Core Lean only (linked into `tfm`).
 -/
 namespace TF.Model.PolyD
-open TF
+open TF TF.Model.Poly
 
 variable {α : Type}
 
-/-! ## storage, degree, normalisation -/
+/-! ## storage, degree, normalisation — from the shared core `TF.Model.Poly` (builder G)
+
+`normalize`, `degree`, `leadingCoefficient`, `isZero`, `add`, `sub`, `scalarMul`, `mul` (= `naive_multiply`),
+`xToThe`, `shiftCoefficients`, `reverse`, `scaleG` are the shared definitions; only what division needs in addition is
+defined here. -/
 section basic
 variable (F : FieldOps α)
 
-/-- the stored coefficients from the leading non-zero one downwards (highest degree first) -/
+/-- the stored coefficients from the leading non-zero one downwards (highest degree first);
+    `normalize F p = (revNorm F p).reverse` by definition -/
 def revNorm (p : List α) : List α := p.reverse.dropWhile F.isZero
 
-/-- `coefficients()` / `normalize()`: stored leading zeros removed -/
-def normalize (p : List α) : List α := (revNorm F p).reverse
-
-/-- `degree() + 1`; `0` for the zero polynomial -/
-def degSucc (p : List α) : Nat := (revNorm F p).length
-
-/-- `degree()`: `-1` for the zero polynomial -/
-def degree (p : List α) : Int := (degSucc F p : Int) - 1
-
-/-- `leading_coefficient()` -/
-def leadingCoefficient (p : List α) : Option α := (revNorm F p).head?
-
-/-- `is_zero()` -/
-def isZeroPoly (p : List α) : Bool := (revNorm F p).isEmpty
+/-- `degree() + 1`; `0` for the zero polynomial; `degree F p = degSucc F p - 1` by definition -/
+def degSucc (p : List α) : Nat := (normalize F p).length
 
 /-- `Vec::resize(n, ZERO)` -/
 def resize (p : List α) (n : Nat) : List α := p.take n ++ List.replicate (n - p.length) F.zero
-
-/-- `Add`: `zip_longest` -/
-def add : List α → List α → List α
-  | [], q => q
-  | p, [] => p
-  | a :: p, b :: q => F.add a b :: add p q
-
-/-- `Sub`: `zip_longest`, a missing left operand is `ZERO - r` -/
-def sub : List α → List α → List α
-  | [], q => q.map (fun r => F.sub F.zero r)
-  | p, [] => p
-  | a :: p, b :: q => F.sub a b :: sub p q
-
-/-- `scalar_mul` / `scalar_mul_mut`: every stored coefficient times `c` -/
-def scalarMul (c : α) (p : List α) : List α := p.map (fun x => F.mul x c)
-
-/-- schoolbook product of two storages (`Σ aᵢ·Xⁱ·q`) -/
-def mulAux : List α → List α → List α
-  | [], _ => []
-  | a :: as, q => add F (q.map (fun x => F.mul a x)) (F.zero :: mulAux as q)
-
-/-- the ring product as returned by `naive_multiply`, `multiply`, `fast_multiply` and `*`: the zero polynomial is
-    `[]`, otherwise exactly `deg a + deg b + 1` stored coefficients -/
-def mul (a b : List α) : List α :=
-  let a' := normalize F a
-  let b' := normalize F b
-  if a'.isEmpty || b'.isEmpty then [] else mulAux F a' b'
-
-/-- `x_to_the(n)` -/
-def xToThe (n : Nat) : List α := List.replicate n F.zero ++ [F.one]
-
-/-- `shift_coefficients(k)`: multiply by `X^k` -/
-def shiftCoefficients (p : List α) (k : Nat) : List α := List.replicate k F.zero ++ p
-
-/-- `reverse()`: the normalised coefficients in reverse order -/
-def reverse (p : List α) : List α := revNorm F p
 
 /-- `truncate(k)`: the `k+1` highest coefficients of the normalised polynomial -/
 def truncate (p : List α) (k : Nat) : List α := ((revNorm F p).take (k + 1)).reverse
@@ -106,7 +65,10 @@ variable (F : FieldOps α)
 def subScaled (qc : α) : List α → List α → Option (List α)
   | [], rest => some rest
   | _ :: _, [] => none
-  | t :: tl, r :: rest => (subScaled qc tl rest).map (fun l => F.sub r (F.mul qc t) :: l)
+  | t :: tl, r :: rest =>
+    match subScaled qc tl rest with
+    | none => none
+    | some l => some (F.sub r (F.mul qc t) :: l)
 
 /-- outer loop of `naive_divide`, `n` iterations left. `rr` = remainder, highest degree first (so `pop()` is the
     head); `q` = quotient coefficients found so far, lowest degree first (Rust pushes and reverses at the end);
@@ -153,7 +115,7 @@ variable (F : FieldOps α)
 def xgcdLoop : Nat → List α → List α → List α → List α → List α → List α → Option (List α × List α × List α)
   | 0, _, _, _, _, _, _ => none
   | fuel + 1, x, y, a0, a1, b0, b1 =>
-    if isZeroPoly F y then some (x, a0, b0)
+    if isZero F y then some (x, a0, b0)
     else
       match naiveDivide F x y with
       | none => none
@@ -171,7 +133,7 @@ def xgcd (x y : List α) : Option (List α × List α × List α) :=
       | some c => c
       | none => F.one
     let li := F.inv lc
-    some (scalarMul F li g, scalarMul F li a, scalarMul F li b)
+    some (scalarMul F g li, scalarMul F a li, scalarMul F b li)
 
 end xgcd
 
@@ -390,7 +352,7 @@ def newtonStandard (f : List α) : Nat → List α → List α
   | 0, g => g
   | k + 1, g =>
     let s := mul F (mul F g g) f
-    let g2 := scalarMul F (F.ofNat 2) g
+    let g2 := scalarMul F g (F.ofNat 2)
     newtonStandard f k (sub F g2 s)
 
 /-- the NTT-domain rounds; `fn` = the first `cur` entries of the Rust buffer `f_ntt` (the rest of the buffer is zero) -/
@@ -471,11 +433,6 @@ structure ExtOps (β χ : Type) where
 
 variable (FB : FieldOps β) (FX : FieldOps χ) (E : ExtOps β χ) (NX : NttOps χ)
 
-/-- `scale(alpha)`: coefficient `i` times `alpha^i` (powers accumulated by repeated multiplication) -/
-def scaleGo (toX : β → χ) (alpha : χ) : χ → List β → List χ
-  | _, [] => []
-  | pw, c :: cs => FX.mul (toX c) pw :: scaleGo toX alpha (FX.mul pw alpha) cs
-
 /-- backward pass of Montgomery batch inversion over `(input, prefix product)` pairs -/
 def batchBack : List (χ × χ) → χ → List χ × χ
   | [], acc => ([], acc)
@@ -514,8 +471,8 @@ def cleanDivide (cutoff : Nat) (a d : List β) : Option (List β) :=
     match stripped with
     | none => none
     | some (a1, d1) =>
-      let aX := scaleGo FX E.lift E.offset FX.one a1
-      let dX := scaleGo FX E.lift E.offset FX.one d1
+      let aX := scaleG FX.one FX.mul (fun c pw => FX.mul (E.lift c) pw) a1 E.offset
+      let dX := scaleG FX.one FX.mul (fun c pw => FX.mul (E.lift c) pw) d1 E.offset
       let order := nextPowerOfTwo (degSucc FB a1)
       match nttChecked NX (resize FX aX order), nttChecked NX (resize FX dX order) with
       | some aE, some dE =>
@@ -527,7 +484,7 @@ def cleanDivide (cutoff : Nat) (a d : List β) : Option (List β) :=
             match inttChecked NX (List.zipWith FX.mul aE inv) with
             | none => none
             | some q =>
-              let qs := scaleGo FX (fun x => x) (FX.inv E.offset) FX.one q
+              let qs := scale FX q (FX.inv E.offset)
               qs.mapM E.unlift                               -- `c.unlift().unwrap()`
       | _, _ => none
 
@@ -546,36 +503,44 @@ def odds : List α → List α
   | [_] => []
   | _ :: y :: r => y :: odds r
 
-/-- `combine w wk E O`: `E[k] + w^k·O[k]` followed by `E[k] - w^k·O[k]` -/
-def butterfly (w : α) : α → List α → List α → List α × List α
-  | _, [], _ => ([], [])
-  | _, _, [] => ([], [])
-  | wk, e :: es, o :: os =>
-    let t := F.mul o wk
-    let r := butterfly w (F.mul wk w) es os
-    (F.add e t :: r.1, F.sub e t :: r.2)
+/-- `w^0, w^1, …` (`n` powers starting from `cur`) -/
+def powersFrom (w : α) : Nat → α → List α
+  | 0, _ => []
+  | n + 1, cur => cur :: powersFrom w n (F.mul cur w)
 
-/-- DFT of a list whose length is `2^k`, `w` a primitive `2^k`-th root of unity -/
-def dftRec : Nat → α → List α → List α
-  | 0, _, l => l
-  | k + 1, w, l =>
-    let w2 := F.mul w w
-    let e := dftRec k w2 (evens l)
-    let o := dftRec k w2 (odds l)
-    let r := butterfly F w F.one e o
+/-- twiddle factors per recursion level: for size `2^k` the `2^(k-1)` powers of `w`, then those of `w²`, … -/
+def twiddleLevels : Nat → α → List (List α)
+  | 0, _ => []
+  | k + 1, w => powersFrom F w (2 ^ k) F.one :: twiddleLevels k (F.mul w w)
+
+/-- `E[j] + w^j·O[j]` followed by `E[j] - w^j·O[j]` -/
+def butterfly : List α → List α → List α → List α × List α
+  | t :: ts, e :: es, o :: os =>
+    let x := F.mul o t
+    let r := butterfly ts es os
+    (F.add e x :: r.1, F.sub e x :: r.2)
+  | _, _, _ => ([], [])
+
+/-- DFT of a list whose length is `2^k`, given the twiddle levels of a primitive `2^k`-th root of unity -/
+def dftRec : List (List α) → List α → List α
+  | [], l => l
+  | tw :: rest, l =>
+    let e := dftRec rest (evens l)
+    let o := dftRec rest (odds l)
+    let r := butterfly F tw e o
     r.1 ++ r.2
 
 /-- `ntt::ntt` / `ntt::intt` computed recursively; root from `F.rootOfUnity` -/
 def nttExec : NttOps α where
   ntt := fun l =>
     match F.rootOfUnity l.length with
-    | some w => dftRec F (Nat.log2 l.length) w l
+    | some w => dftRec F (twiddleLevels F (Nat.log2 l.length) w) l
     | none => l
   intt := fun l =>
     match F.rootOfUnity l.length with
     | some w =>
       let ninv := F.inv (F.ofNat l.length)
-      (dftRec F (Nat.log2 l.length) (F.inv w) l).map (fun x => F.mul x ninv)
+      (dftRec F (twiddleLevels F (Nat.log2 l.length) (F.inv w)) l).map (fun x => F.mul x ninv)
     | none => l
 
 end exec
